@@ -214,7 +214,7 @@ def family_of(text, ev):
 
 
 FROM_EXPR = {'none': None, 'plain': 'year = 2020', 'and': 'year = 2020 AND month > 0 AND NOT flag = "!"', 'agg': 'count(*)',
-             'aggcmp': 'max(date) = date', 'aggdeep': 'year = 2020 AND NOT (1 + count(id) > 1)'}
+             'aggcmp': 'max(date) = date', 'aggdeep': 'year = 2020 AND NOT (1 + count(id) > 1)', 'sub': 'year = (SELECT 2020)'}
 FROM_DATES = {1: datetime.date(2020, 1, 1), 2: datetime.date(2020, 2, 1), 3: datetime.date(2020, 3, 1)}
 
 
@@ -239,7 +239,7 @@ def stmt_rules_leg(ctx):
     if res.violated:
         ctx.violation('spec:' + ','.join(res.violated), 'TLC: the compile mechanism disagrees with the FROM-clause rules', {'behaviour': res.behaviour[:3000]}, 'MC')
     ctx.tlc('StmtRules', 'StmtRules_printown.cfg', leg='MC-nonvacuity', expect_violation='AcceptInv', workers=1)
-    if len(cases) != 4 * 6 * 4 * 5 * 2:
+    if len(cases) != 4 * 7 * 4 * 5 * 2:
         raise MachineryError('StmtRules emitted %d cases' % len(cases))
 
     def build(c, text=False):
